@@ -1727,6 +1727,15 @@ class Spec(object):
                 got, want = lin_sub(ex['rv'], d1), e['ret'][1]
             if not clean(got):
                 dirty = True
+                if e['ret'][0] == 'rel' and clean(ex['rv']) and not clean(d1) and \
+                        any(at == atom(('init', self.cell(0)))[2][0][0] for at, co in ex['rv'][2]):
+                    # the result is an address in the buffer the container had on entry, but on this
+                    # path something (a loop of single insertions, an internal helper) may have
+                    # replaced the buffer: the data pointer afterwards is not known to be the old one
+                    self.rep('R01.2', False, 'the returned position is computed from the data pointer read before a step that may '
+                             'replace the buffer (it dangles whenever that step reallocates)',
+                             {'returned': show(ex['rv'], c), 'through': self.via(ex)})
+                    self.decided += 1
             elif same(got, want, eqs):
                 self.rep('R01.2', True, 'position law')
                 self.decided += 1
